@@ -420,6 +420,48 @@ end Boario.Gen
 """
 
 
+# ------------------------------------------------------------------ loop(): the equilibrium early exit
+
+
+def gen_loop(tree):
+    """every statement of boario/simulation.py that writes `self._monotony_checker` (the counter whose value > 3
+    makes loop() stop early), and the iteration range of loop()"""
+    writes = []
+    for node in ast.walk(tree):
+        if isinstance(node, ast.Assign):
+            for t in node.targets:
+                if attr_chain(t) == "self._monotony_checker":
+                    writes.append("= " + ast.unparse(node.value))
+        elif isinstance(node, ast.AugAssign) and attr_chain(node.target) == "self._monotony_checker":
+            writes.append(type(node.op).__name__ + "= " + ast.unparse(node.value))
+        elif isinstance(node, ast.AnnAssign) and attr_chain(node.target) == "self._monotony_checker":
+            writes.append("= " + (ast.unparse(node.value) if node.value is not None else "?"))
+        elif isinstance(node, ast.Call) and attr_chain(node.func) in ("setattr",) and node.args[1:2] and isinstance(node.args[1], ast.Constant) \
+                and node.args[1].value == "_monotony_checker":
+            writes.append("setattr " + ast.unparse(node.args[2]) if len(node.args) > 2 else "setattr ?")
+    sim = find_class(tree, "Simulation")
+    loop = find_func(sim, "loop")
+    ranges = []
+    for node in ast.walk(loop):
+        if isinstance(node, ast.Call) and attr_chain(node.func) == "range":
+            ranges.append([ast.unparse(a) for a in node.args])
+    rl = ",\n  ".join("[" + ", ".join(lstr(a) for a in r) + "]" for r in ranges)
+    wl = ", ".join(lstr(w) for w in writes)
+    return f"""/- GENERATED by harness/translate.py from boario/simulation.py. Do not edit. -/
+namespace Boario.Gen
+
+/-- right-hand sides of every write to `self._monotony_checker` in the module -/
+def monotonyWrites : List String := [{wl}]
+
+/-- arguments of every `range(...)` in `Simulation.loop` -/
+def loopRanges : List (List String) := [
+  {rl}
+]
+
+end Boario.Gen
+"""
+
+
 def regenerate():
     GEN.mkdir(parents=True, exist_ok=True)
     trees = {}
@@ -430,6 +472,7 @@ def regenerate():
         "RecordSpecs.lean": gen_record_specs(trees["simulation"]),
         "Defaults.lean": gen_defaults(trees),
         "Slices.lean": gen_slices(trees),
+        "Loop.lean": gen_loop(trees["simulation"]),
     }
     changed = []
     for name, text in outs.items():
